@@ -10,7 +10,7 @@ CHECKS = {
         'non-UTF-8 strings through the JSON envelope (known finding), counter at MaxInt64, nil metadata map at the requeuer, same-object redelivery counting attempts. '
         'Redelivery (any number of attempts, by induction): from a GoChannel-like source every attempt relays an intact copy of the ORIGINAL, the destination accepts at most once, nothing is relayed after an Ack, '
         'the requeuer counter rises once per successful requeue over any number of rounds; FanIn/FanOut stream and per-source multiset preservation under faults at any index; the relay as consumer of a GoChannel '
-        'subscription composed with the Layer A invariant (at most once per publication, acked => relayed, nacked => offered again); the global codec law has a concrete injective instance. Tied to the code on every run: ~1500 generated '
+        'subscription composed with the Layer A invariant (at most once per publication, acked => relayed, nacked => offered again); the global codec law has a concrete injective instance. Round proofs 2: the composed system GoChannel Layer A + relay-as-consumer (CHandle = one handle per received copy deciding LAck/LNack) refines Layer A and has relay_consumer as an INVARIANT, so the over-GoChannel theorems hold with no hypothesis on the consumer, and - glued to Layer B as in ReplayCompose - per PUBLICATION; the envelope codec oracle is instantiated with the C16 JSON model (escaping, base64, field mapping): round trip and Publisher->Forwarder end to end hold exactly on the real wire format under the single assumption framing_ok, and the non-UTF-8 refutation follows from the non-injectivity of JSON escaping. Tied to the code on every run: ~1500 generated '
         'cases through the REAL Forwarder (+ its Publisher), FanIn, Requeuer and FanOut (real internal GoChannel) on real Routers with scripted source and destination, '
         '1..8 messages in flight, destination faults at every call index, 26 envelope shapes (valid-but-odd, truncated, wrong types, missing topic), metadata edge cases; '
         'per-message traces compared with the model and judged by the proved acceptor.'),
